@@ -399,6 +399,44 @@ def run(chk):
                 except Panic as e:
                     chk.fail("R15.9", key, "panic: %s" % e, where="src/descriptor/tr/taptree.rs")
         chk.floor("R15.9", "schedules", n9, 100)
+    # R15.10 tree texts: what the parser accepts is a complete binary tree holding every leaf of the text
+    chk.rule("R15.10", "taproot descriptor texts whose tree part is not a binary tree ({A}, {A,B,C}, {{A,B,C},D}, {}, extra "
+                       "arguments ...) are refused, and for every text the parser accepts the recorded (depth, leaf) list holds "
+                       "each leaf of the text once, in order, and is a complete binary tree (the depths satisfy Kraft's equality): "
+                       "nothing the text shows is left outside the commitment")
+    try:
+        from fractions import Fraction
+        from ..builtins import deref
+        m10, _p10 = c10.desc_machine(F)
+        m10.max_depth = 140
+        trees = ["pk(A)", "{pk(A),pk(B)}", "{pk(A),{pk(B),pk(C)}}", "{{pk(A),pk(B)},{pk(C),pk(D)}}",
+                 "{pk(A)}", "{pk(A),pk(B),pk(C)}", "{pk(A),pk(B),pk(C),pk(D)}", "{{pk(A),pk(B),pk(C)},pk(D)}", "{pk(A),{pk(B)}}",
+                 "{pk(A),{pk(B),pk(C),pk(D)}}", "{}", "{pk(A),}", "{,pk(A)}", "{{pk(A),pk(B)}}", "{pk(A),pk(B)},pk(C)",
+                 "pk(A),pk(B)", "{pk(A),pk(B)}{pk(C),pk(D)}"]
+        n10 = 0
+        import re as _re
+        for tt in trees:
+            text = "tr(K,%s)" % tt
+            r = c10.desc_from_str(F, m10, text)
+            n10 += 1
+            names = _re.findall(r"pk\(([A-Z])\)", tt)
+            binary = tt in trees[:4]
+            if r.variant != "Ok":
+                chk.obligation("R15.10", not binary, text, "a binary tree text is refused: %s" % repr(r)[:120], where="src/descriptor/tr/mod.rs")
+                continue
+            tr_ = deref(deref(r.fields["0"]).fields["0"])
+            tree = tr_.fields["tree"]
+            dl = [] if tree.variant == "None" else [(d, deref(x)) for d, x in deref(tree.fields["0"]).fields["depths_leaves"].items]
+            got_names = [_re.findall(r"'([A-Z])'", repr(x.fields["node"]))[0] if _re.findall(r"'([A-Z])'", repr(x.fields["node"])) else "?" for _d, x in dl]
+            kraft = sum(Fraction(1, 2 ** d) for d, _x in dl)
+            good = got_names == names and kraft == 1
+            chk.obligation("R15.10", good, text, "accepted with leaves %r at depths %r (text has %r; sum of 2^-depth = %s)"
+                           % (got_names, [d for d, _x in dl], names, kraft), where="src/descriptor/tr/mod.rs")
+        chk.floor("R15.10", "texts", n10, 15)
+    except Unsupported as e:
+        chk.fail("R15.10", "unanalysable", "unanalysable: %s" % e, where=e.where, kind="unanalysable")
+    except Panic as e:
+        chk.fail("R15.10", "panic", "panic: %s" % e, where="src/descriptor/tr/mod.rs")
     # R15.4 BitStack128
     chk.rule("R15.4", "BitStack128: pop returns pushed bits in reverse order, None when empty, for sequences up to 128 bits")
     bs = [a for a in F.adts if a.endswith("BitStack128")]
